@@ -91,7 +91,10 @@ class Gen:
             ri, ci = r.randrange(nrows), r.randrange(ncols)
             blocks = []
             for _ in range(r.randint(1, 2)):
-                blocks.append(self.lst(0, r.choice([1, 2, 3, 6, 7, 8])) if r.random() < 0.6 else ("para", self.inlines(1, allow_ref=False)))
+                if depth > 0 and r.random() < 0.25:
+                    blocks.append(self.table(0))          # a table nested in the cell (with its own caption now and then)
+                else:
+                    blocks.append(self.lst(0, r.choice([1, 2, 3, 6, 7, 8])) if r.random() < 0.6 else ("para", self.inlines(1, allow_ref=False)))
             rows[ri][ci] = (rows[ri][ci][0], {"blocks": blocks})
             if r.random() < 0.3:        # the whole row made of list cells
                 rows[ri] = [(h, {"blocks": [self.lst(0, r.choice([2, 6, 7]))]}) for h, _ in rows[ri]]
@@ -390,6 +393,7 @@ def denote(d):
                     hdr, il = cellspec[0], cellspec[1]
                     c = dict(ctx)
                     c["cell"] = (ri, ci, hdr)
+                    c["outer"] = ctx["outer"] or (ri, ci)       # the cell of the outermost table
                     if isinstance(il, dict):
                         for bl in il["blocks"]:
                             block(bl, c)
@@ -402,7 +406,7 @@ def denote(d):
                 inl(line, c)
 
     base = dict(section=(), lists=(), cell=None, caption=False, styles=frozenset(), link=None, ext=None, ref=False, pre=False,
-                heading=False, dl=None, linkvis=None)
+                heading=False, dl=None, linkvis=None, outer=None)
 
     def section(s, ctx):
         _, level, title, blocks, subs = s
@@ -483,6 +487,7 @@ def read_tree(root):
                             ci += 1
                             cc = dict(c)
                             cc["cell"] = (ri, ci, bool(getattr(cell, "is_header", False)))
+                            cc["outer"] = c.get("outer") or (ri, ci)
                             for x in cell.children:
                                 walk(x, cc, None)
                         else:
@@ -532,7 +537,7 @@ def read_tree(root):
             walk(ch, c, table_state)
 
     base = dict(section=(), lists=(), cell=None, caption=False, styles=frozenset(), link=None, ext=None, ref=False, pre=False,
-                heading=False, dl=None, linkvis=None)
+                heading=False, dl=None, linkvis=None, outer=None)
     walk(root, base, None)
     return out
 
